@@ -630,17 +630,17 @@ package netceptor
 //@   params s
 //@   pure
 //@ func (*PacketConn).ReadFrom
-//@   tags C03
+//@   tags C03 C02
 //@   requires pc != nil && pc.s != nil
-//@   site call copy WHOLE: [C03] requires arg0 == p && arg1 == m.Data && m != nil
-//@   ensures COUNT: [C03] result.1 != nil ==> result.2 == nil && result.0 == nCopied && nCopied == min(len(p), len(m.Data))
-//@   ensures FROM: [C03] result.1 != nil ==> typeis(result.1, "Addr") && unbox(result.1, "Addr").node == m.FromNode && unbox(result.1, "Addr").service == m.FromService
+//@   site call copy WHOLE: [C03 C02] requires arg0 == p && arg1 == m.Data && m != nil
+//@   ensures COUNT: [C03 C02] result.1 != nil ==> result.2 == nil && result.0 == nCopied && nCopied == min(len(p), len(m.Data))
+//@   ensures FROM: [C03 C02] result.1 != nil ==> typeis(result.1, "Addr") && unbox(result.1, "Addr").node == m.FromNode && unbox(result.1, "Addr").service == m.FromService
 
 //@ func (*PacketConn).WriteTo
-//@   tags C03
+//@   tags C03 C02
 //@   requires pc != nil && pc.s != nil
-//@   site call SendMessageWithHopsToLive ASGIVEN: [C03] requires arg0 == pc.localService && arg1 == ncaddr.node && arg2 == ncaddr.service && arg3 == p && arg4 == pc.hopsToLive
-//@   ensures ALLSENT: [C03] result.1 == nil ==> result.0 == len(p) && lastcall("SendMessageWithHopsToLive", 0) == nil
+//@   site call SendMessageWithHopsToLive ASGIVEN: [C03 C02] requires arg0 == pc.localService && arg1 == ncaddr.node && arg2 == ncaddr.service && arg3 == p && arg4 == pc.hopsToLive
+//@   ensures ALLSENT: [C03 C02] result.1 == nil ==> result.0 == len(p) && lastcall("SendMessageWithHopsToLive", 0) == nil
 
 //@ func (*Conn).Read
 //@   tags C03
@@ -828,3 +828,22 @@ package netceptor
 //@   tags C10 C16
 //@   requires s != nil && md != nil
 //@   site call sendMessage REPLYTOSENDER: [C10] requires arg1 == "ping" && arg2 == md.FromNode && arg3 == md.FromService && len(arg4) == 0
+
+// ---- C02: the embedded-backend message connection frames like the TCP backend: one frame per message, written
+// ---- completely; only messages the de-framer reports complete are handed on
+//@ func (*netMessageConn).WriteMessage
+//@   tags C02
+//@   requires mc != nil && mc.framer != nil && mc.conn != nil && ctx != nil
+//@   site call SendData ONEFRAME: [C02] requires arg0 == data
+//@   site call Write WHOLEFRAME: [C02] requires arg0 == lastcall("SendData", 0)
+//@   ensures COMPLETE: [C02] result == nil ==> lastcall("Write", 1) == nil && lastcall("Write", 0) == len(lastcall("SendData", 0))
+
+//@ func (*netMessageConn).ReadMessage
+//@   tags C02 C07
+//@   requires mc != nil && mc.framer != nil && mc.conn != nil && ctx != nil
+//@   site call Read INTOBUF: [C02] requires arg0 == buf
+//@   site call RecvData WHATWASREAD: [C02] requires ref(arg0) == ref(buf) && off(arg0) == off(buf) && len(arg0) == lastcall("Read", 0) && lastcall("Read", 0) > 0
+//@   site call GetMessage WHENREADY: [C02] requires lastcall("MessageReady", 0)
+//@   ensures THEMESSAGE: [C02] result.0 != nil ==> result.0 == lastcall("GetMessage", 0) && lastcall("GetMessage", 1) == nil && result.1 == nil
+//@   loop for
+//@     invariant BUF: len(buf) == 65536 && buf != nil
